@@ -320,10 +320,13 @@ impl SwiftField for Field57 {
                 let field = Field57D::parse(value)?;
                 Ok(Field57::D(field))
             }
-            _ => {
-                // No variant specified, fall back to default parse behavior
+            None => {
+                // No option letter given: the option is inferred from the content
                 Self::parse(value)
             }
+            Some(other) => Err(ParseError::InvalidFormat {
+                message: format!("Field 57 has no option {}", other),
+            }),
         }
     }
 
@@ -499,10 +502,13 @@ impl SwiftField for Field57DebtInstitution {
                 let field = Field57D::parse(value)?;
                 Ok(Field57DebtInstitution::D(field))
             }
-            _ => {
-                // No variant specified, fall back to default parse behavior
+            None => {
+                // No option letter given: the option is inferred from the content
                 Self::parse(value)
             }
+            Some(other) => Err(ParseError::InvalidFormat {
+                message: format!("Field 57 has no option {}", other),
+            }),
         }
     }
 
